@@ -94,3 +94,37 @@ package contractcourt
 //@        arg(broadcastHeight) == height && (htlc.OutputIndex >= 0 ==> htlcOp.Index == htlc.OutputIndex) && htlcOp.Hash == commitHash
 //@   site call newOutgoingContestResolver: assert htlcAction == HtlcOutgoingWatchAction && ok && arg(htlc) == htlc && arg(res) == resolution &&
 //@        arg(broadcastHeight) == height && (htlc.OutputIndex >= 0 ==> htlcOp.Index == htlc.OutputIndex) && htlcOp.Hash == commitHash
+//@
+//@ func convertToSecondLevelRevoke
+//@   props C04
+//@   requires bo != nil && spendDetails != nil
+//@   let tx = old(spendDetails.SpendingTx)
+//@   let idx = old(spendDetails.SpenderInputIndex)
+//@   ensures bo.outpoint.Index == idx
+//@   ensures bo.signDesc.Output.Value == old(tx.TxOut[idx].Value) && bo.amt == old(tx.TxOut[idx].Value)
+//@   ensures bo.signDesc.Output.PkScript == old(tx.TxOut[idx].PkScript)
+//@   ensures bo.signDesc.WitnessScript == old(bo.secondLevelWitnessScript)
+//@   ensures bo.signDesc.TapTweak == sliceof(bo.secondLevelTapTweak)
+//@   ensures bo.witnessType == ite(ret(IsPayToTaproot), input.TaprootHtlcSecondLevelRevoke, input.HtlcSecondLevelRevoke)
+//@   site call IsPayToTaproot: assert arg(0) == bo.signDesc.Output.PkScript
+//@
+//@ func (c *chainWatcher) handleCommitSpend
+//@   props C04
+//@   requires c.cfg.chanState != nil && commitSpend != nil
+//@   requires commitSpend.SpendingTx != nil ==> forallq(k, 0, len(commitSpend.SpendingTx.TxOut), commitSpend.SpendingTx.TxOut[k] != nil)
+//@   site call extractStateNumHint: assert arg(0) == commitSpend.SpendingTx && arg(1) == c.stateHintObfuscator
+//@   site call handleKnownRemoteState: assert arg(1) == commitSpend && arg(2) == ret(extractStateNumHint)
+//@
+//@ func (c *chainWatcher) handleKnownRemoteState
+//@   props C04
+//@   requires c.cfg.chanState != nil && commitSpend != nil
+//@   requires commitSpend.SpendingTx != nil ==> forallq(k, 0, len(commitSpend.SpendingTx.TxOut), commitSpend.SpendingTx.TxOut[k] != nil)
+//@   site call handlePossibleBreach: assert arg(1) == commitSpend && arg(2) == broadcastStateNum
+//@
+//@ func (c *chainWatcher) handlePossibleBreach
+//@   props C04
+//@   requires c.cfg.chanState != nil && commitSpend != nil
+//@   requires commitSpend.SpendingTx != nil ==> forallq(k, 0, len(commitSpend.SpendingTx.TxOut), commitSpend.SpendingTx.TxOut[k] != nil)
+//@   loop * havoc
+//@   site call NewBreachRetribution: assert arg(0) == c.cfg.chanState && arg(1) == broadcastStateNum && arg(3) == commitSpend.SpendingTx
+//@   site call NewAnchorResolution: assert retn(NewBreachRetribution, 1) == nil && arg(2) == retn(NewBreachRetribution, 0).KeyRing
